@@ -78,6 +78,7 @@ func NewAllocator(sz int, tag string) *Allocator {
 }
 
 func (a *Allocator) Reset() {
+	verifYield(verifSiteAllocReset)
 	atomic.StoreUint64(&a.compIdx, 0)
 }
 
@@ -275,20 +276,25 @@ func (a *Allocator) Allocate(sz int) []byte {
 		return nil
 	}
 	for {
+		verifYield(verifSiteAllocAdd)
 		pos := atomic.AddUint64(&a.compIdx, uint64(sz))
+		verifYield(verifSiteAllocAdded)
 		bufIdx, posIdx := parse(pos)
 		buf := a.buffers[bufIdx]
 		if posIdx > len(buf) {
+			verifYield(verifSiteAllocLock)
 			a.Lock()
 			newPos := atomic.LoadUint64(&a.compIdx)
 			newBufIdx, _ := parse(newPos)
 			if newBufIdx != bufIdx {
 				a.Unlock()
+				verifYield(verifSiteAllocUnlocked)
 				continue
 			}
 			a.addBufferAt(bufIdx+1, sz)
 			atomic.StoreUint64(&a.compIdx, uint64((bufIdx+1)<<32))
 			a.Unlock()
+			verifYield(verifSiteAllocUnlocked)
 			// We added a new buffer. Let's acquire slice the right way by going back to the top.
 			continue
 		}
